@@ -123,7 +123,72 @@ SCENARIOS = [
     dict(prop="C09", name="D81 damaged new half of a context hunk with changed lines", tree={b"f": b"c\na\nb\nb\nb\na\n"}, argv=[b"-f", b"-i", b"p.diff"],
          patch=b"*** f\n--- f\n***************\n*** 2,5 ****\n  a\n! b\n! b\n  b\n--- 2,4 ----\nX a\n! }\n  b\n",
          expect=lambda r: _exp(r.exit == 2 and files(r).get(b"f") == b"c\na\nb\nb\nb\na\n", f"the damaged hunk was applied as a removal of its changed lines (exit {r.exit}, f = {files(r).get(b'f')!r})")),
-    # ---- recorded as known findings ---------------------------------------------------------------------------------------------------
+    # ---- fixed in round three (hunters d and e on the tree after round two) ---------------------------------------------------------------
+    dict(prop="C14", name="D85 CRLF patch without its final newline", tree={b"f": b"a\r\nb\r\n"}, argv=[b"--newline-output=crlf", b"-i", b"p.diff"],
+         patch=b"--- f\n+++ f\n@@ -1,2 +1,3 @@\r\n a\r\n b\r\n+c\r",
+         expect=lambda r: _exp(r.exit == 0 and files(r) == {b"f": b"a\r\nb\r\nc\r\n"}, f"the CR left of the cut-off CRLF became part of the line (exit {r.exit}, files {files(r)})")),
+    dict(prop="C14", name="D85 CRLF context diff without its final newline", tree={b"f": b"a\r\nb\r\nc\r\n"}, argv=[b"--newline-output=preserve", b"-i", b"p.diff"],
+         patch=b"*** f\n--- f\n***************\n*** 1,3 ****\r\n  a\r\n! b\r\n  c\r\n--- 1,3 ----\r\n  a\r\n! B\r\n  c\r",
+         expect=lambda r: _exp(r.exit == 0 and files(r) == {b"f": b"a\r\nB\r\nc\r\n"}, f"a CRLF context diff cut off before its last newline is not applied cleanly (exit {r.exit}, files {files(r)})")),
+    dict(prop="C12", name="D89 \\r and \\a in a quoted name", tree={b"x\ry\x07": b"one\n"}, argv=[b"-i", b"p.diff"],
+         patch=b'--- "x\\ry\\a"\n+++ "x\\ry\\a"\n@@ -1 +1 @@\n-one\n+ONE\n',
+         expect=lambda r: _exp(r.exit == 0 and files(r) == {b"x\ry\x07": b"ONE\n"}, f"a name quoted with \\r and \\a is not patched (exit {r.exit}, {r.stderr[-80:]!r})")),
+    dict(prop="C11", name="D90 Prereq word starting with a double quote", tree={b"f": b'version "1.2\none\n'}, argv=[b"-i", b"p.diff"],
+         patch=b'Prereq: "1.2\n--- f\n+++ f\n@@ -1,2 +1,2 @@\n version "1.2\n-one\n+ONE\n',
+         expect=lambda r: _exp(r.exit == 0 and files(r) == {b"f": b'version "1.2\nONE\n'}, f"a Prereq word starting with a quote ends the run (exit {r.exit}, {r.stderr[-80:]!r})")),
+    dict(prop="C04", name="D91 empty parent directory that may not be removed", tree={b"top": ("d", 0o555), b"top/d": ("d", 0o777), b"top/d/f": b"hello\n", b"g": b"one\ntwo\nthree\n"},
+         argv=[b"-p0", b"-i", b"p.diff"], uid=65534,
+         patch=b"--- top/d/f\n+++ /dev/null\n@@ -1 +0,0 @@\n-hello\n" + u(b"g", [b"two"], [b"TWO"], 2),
+         expect=lambda r: _exp(r.exit == 0 and files(r) == {b"g": b"one\nTWO\nthree\n"}, f"rmdir failing with EACCES ends the run: the later section is neither applied nor rejected (exit {r.exit}, files {files(r)})")),
+    dict(prop="C15", name="D91 dry run and an empty parent directory that may not be removed", tree={b"top": ("d", 0o555), b"top/d": ("d", 0o777), b"top/d/f": b"hello\n"},
+         argv=[b"-p0", b"-i", b"p.diff"], uid=65534, dry=True,
+         patch=b"--- top/d/f\n+++ /dev/null\n@@ -1 +0,0 @@\n-hello\n", expect=lambda r: None),
+    dict(prop="C09", name="D31 --backup and a git stream whose last section is cut off", tree={b"a.txt": b"one\ntwo\nthree\n", b"c.txt": b"x\ny\nz\n"}, argv=[b"--backup", b"-p1", b"-i", b"p.diff"],
+         patch=b"diff --git a/a.txt b/a.txt\n--- a/a.txt\n+++ b/a.txt\n@@ -1,3 +1,3 @@\n one\n-two\n+TWO\n three\ndiff --git a/c.txt b/c.txt\n--- a/c.txt\n+++ b/c.txt\n@@ -1,3 +1,3 @@\n x\n-y\n+Y\n",
+         expect=lambda r: _exp(r.exit != 2 or (files(r).get(b"a.txt") in (b"one\ntwo\nthree\n", b"one\nTWO\nthree\n") and files(r).get(b"c.txt") == b"x\ny\nz\n"),
+                               f"after the abort a.txt is {'missing' if b'a.txt' not in files(r) else 'neither old nor new'} (tree {sorted(files(r))})")),
+    dict(prop="C17", name="D92 git patch deleting a symbolic link", tree={b"by": b"content\n", b"l": ("l", b"by")}, argv=[b"-p1", b"--no-backup-if-mismatch", b"-i", b"p.diff"],
+         patch=b"diff --git a/l b/l\ndeleted file mode 120000\nindex 1234567..0000000\n--- a/l\n+++ /dev/null\n@@ -1 +0,0 @@\n-by\n\\ No newline at end of file\n",
+         expect=lambda r: _exp(r.exit != 0 and r.after.get(b"by") == r.before.get(b"by") and r.after.get(b"l", ("?",))[0] == "l",
+                               f"a patch about a symbolic link was applied to the file the link points to (exit {r.exit}, by touched: {r.after.get(b'by') != r.before.get(b'by')}, l is now {r.after.get(b'l', ('gone',))[0]})")),
+    dict(prop="C16", name="D92 -R of the creation of a symbolic link", tree={b"real": b"data\n", b"l": ("l", b"real")}, argv=[b"-R", b"-p1", b"-i", b"p.diff"],
+         patch=b"diff --git a/l b/l\nnew file mode 120000\nindex 0000000..1234567\n--- /dev/null\n+++ b/l\n@@ -0,0 +1 @@\n+real\n\\ No newline at end of file\n",
+         expect=lambda r: _exp(r.exit != 0 and r.after.get(b"real") == r.before.get(b"real") and r.after.get(b"l", ("?",))[0] == "l" and b"l.orig" not in r.after,
+                               f"-R of a link creation read and replaced the link by a copy of what it points to (exit {r.exit}, tree {sorted(r.after)})")),
+    dict(prop="C17", name="D93 backup of a read-only file", tree={b"f": (L5, 0o444)}, argv=[b"-b", b"-i", b"p.diff"],
+         patch=u(b"f", [b"l3"], [b"L3"], 3),
+         expect=lambda r: _exp(r.exit == 0 and mode(r, b"f") == 0o444 and mode(r, b"f.orig") == 0o444 and files(r).get(b"f.orig") == L5,
+                               f"the backup of a file with mode 0444 has mode {oct(mode(r, b'f.orig') or 0)} (file {oct(mode(r, b'f') or 0)}, exit {r.exit})")),
+    dict(prop="C17", name="D93 backup fails for a read-only file", tree={b"f": (L5, 0o440), b"f.orig": ("d", 0o755), b"f.orig/x": b"x\n"}, argv=[b"-b", b"-i", b"p.diff"],
+         patch=u(b"f", [b"l3"], [b"L3"], 3),
+         expect=lambda r: _exp(r.exit == 2 and mode(r, b"f") == 0o440 and files(r).get(b"f") == L5, f"the run gave up (exit {r.exit}) and left the untouched file with mode {oct(mode(r, b'f') or 0)}")),
+    dict(prop="C17", name="D94 file its owner may not write (mode 0464)", tree={b"f": (L5, 0o464)}, argv=[b"-i", b"p.diff"], uid=65534,
+         patch=u(b"f", [b"l3"], [b"L3"], 3),
+         expect=lambda r: _exp(r.exit == 0 and mode(r, b"f") == 0o464 and files(r).get(b"f") == L5.replace(b"l3", b"L3"), f"a file with mode 0464 is not patched by its owner (exit {r.exit}, {r.stderr[-80:]!r})")),
+    dict(prop="C17", name="D94 --read-only=fail and mode 0464", tree={b"f": (L5, 0o464)}, argv=[b"--read-only=fail", b"-i", b"p.diff"], uid=65534,
+         patch=u(b"f", [b"l3"], [b"L3"], 3),
+         expect=lambda r: _exp(r.exit == 1 and mode(r, b"f") == 0o464 and files(r).get(b"f") == L5, f"--read-only=fail does not refuse a file its owner may not write (exit {r.exit})")),
+    dict(prop="C06", name="D88 removal applied a second time with -N", tree={b"keep": b"k\n"}, argv=[b"-N", b"-i", b"p.diff"],
+         patch=b"--- f\n+++ /dev/null\n@@ -1,2 +0,0 @@\n-a\n-b\n",
+         expect=lambda r: _exp(r.exit == 1 and b"f" not in r.after and b"f.rej" in r.after and b"ignored" in r.stdout,
+                               f"re-running the removal of a file with -N: exit {r.exit}, tree {sorted(r.after)}, {r.stderr[-60:]!r}")),
+    dict(prop="C06", name="D88 removal applied a second time with -t", tree={b"keep": b"k\n"}, argv=[b"-t", b"-i", b"p.diff"],
+         patch=b"--- f\n+++ /dev/null\n@@ -1,2 +0,0 @@\n-a\n-b\n",
+         expect=lambda r: _exp(r.exit == 0 and files(r).get(b"f") == b"a\nb\n", f"re-running the removal of a file with -t does not restore it (exit {r.exit}, tree {sorted(r.after)})")),
+    # ---- recorded in round three ----------------------------------------------------------------------------------------------------------
+    dict(prop="C01", name="D86 first line of the first hunk is an empty line", tag="unified.first-hunk-line-empty", tree={b"f": b"\nb\nc\n"}, argv=[b"-i", b"p.diff"],
+         patch=b"--- f\n+++ f\n@@ -1,3 +1,3 @@\n\n-b\n+B\n c\n",
+         expect=lambda r: _exp(r.exit == 0 and files(r) == {b"f": b"\nB\nc\n"}, f"a unified diff whose first hunk starts with an empty line (diff --suppress-blank-empty) is taken for garbage (exit {r.exit})")),
+    dict(prop="C12", name="D87 git mode change written without a/ b/ prefixes", tag="git.header-names-without-prefix", tree={b"f": (L5, 0o644)}, argv=[b"-p0", b"-i", b"p.diff"],
+         patch=b"diff --git f f\nold mode 100644\nnew mode 100755\n",
+         expect=lambda r: _exp(r.exit == 0 and mode(r, b"f") == 0o755, f"'diff --git f f' (git diff --no-prefix) with -p0: the file is not found (exit {r.exit})")),
+    dict(prop="C16", name="D95 reject file name that is a symbolic link", tag="reject.through-symlink", tree={b"f": L5, b"by": b"precious\n", b"f.rej": ("l", b"by")},
+         argv=[b"-f", b"--no-backup-if-mismatch", b"-i", b"p.diff"], patch=u(b"f", [b"zwei"], [b"TWO"], 2),
+         expect=lambda r: _exp(files(r).get(b"by") == b"precious\n", "the rejects were written through the link f.rej into the file it points to")),
+    dict(prop="C11", name="D96 git binary section followed by a plain section", tag="git.binary-then-plain", tree={b"f": b"a\nb\nc\n", b"bin": b"x"}, argv=[b"-f", b"-i", b"p.diff"],
+         patch=b"diff --git a/bin b/bin\nindex 1234567..89abcde 100644\nGIT binary patch\nliteral 4\nLc${NkU|;|M00aO5\n\nliteral 3\nKc${NkU}69V0ssI2\n\n--- f\n+++ f\n@@ -1,3 +1,3 @@\n a\n-b\n+B\n c\n",
+         expect=lambda r: _exp(r.exit == 1 and files(r).get(b"f") == b"a\nB\nc\n", f"the plain section after a binary one is not applied (exit {r.exit})")),
+    # ---- recorded as known findings in round two ---------------------------------------------------------------------------------------------------
     dict(prop="C04", name="D83 later section that ends right after its range line", tag="truncated.section-after-range-line", tree={b"f": L5, b"g": L5}, argv=[b"-i", b"p.diff"],
          patch=u(b"f", [b"l3"], [b"L3"], 3) + b"--- g\n+++ g\n@@ -1,2 +1,2 @@\n",
          expect=lambda r: _exp(r.exit != 0, "exit 0 and no message although the second section is cut off after its range line")),
@@ -179,7 +244,7 @@ def run(R, prop):
     for s in scs:
         jobs.append(dict(cut=R.cut, tree=_tree(s), argv=s["argv"], uid=s.get("uid", 0), **({"root_owned": [b"p.diff"]} if s.get("patch_owner_root") else {})))
         if s.get("dry"):
-            jobs.append(dict(cut=R.cut, tree=_tree(s), argv=[b"--dry-run"] + s["argv"]))
+            jobs.append(dict(cut=R.cut, tree=_tree(s), argv=[b"--dry-run"] + s["argv"], uid=s.get("uid", 0)))
     res = iter(drv.run_many(jobs))
     dist = {}
     for s in scs:
